@@ -824,8 +824,81 @@ def collision_probe(backend, order):
                 exist_b_leaves_b_0=qf)
 
 
+def late_declaration_probe(backend, how):
+    """Queries interleaved with declarations: identifiers declared AFTER the
+    first queries (through declare, add_vars, or the declaration methods of
+    temporal.Automaton, which call add_vars) must be treated by every later
+    query exactly like the earlier ones.  Judged against explicit enumeration
+    of the representable values (plain Python evaluation of the formula).
+    Returns None or a description of what differs."""
+    import omega.symbolic.fol as _fol
+    import omega.symbolic.temporal as trl
+    import omega.logic.bitvector as bv
+    aut = how == 'automaton'
+    ctx = trl.Automaton() if aut else _fol.Context()
+    bc.set_backend(ctx, backend)
+    pr = "'" if aut else ''
+    X, P, C, Q = 'x' + pr, 'p' + pr, 'c', 'q' + pr
+    if aut:
+        ctx.declare_variables(x=(0, 5), p='bool')
+    else:
+        ctx.declare(x=(0, 5), p='bool')
+    out = {}
+    # first round of queries (whatever they cache must not outlive it)
+    u = ctx.add_expr(rf'({X} < 3) /\ {P}')
+    out['early_support'] = sorted(ctx.support(u))
+    out['early_count'] = ctx.count(u)
+    list(ctx.pick_iter(u))
+    ctx.exist({X}, u)
+    # late declarations
+    if how == 'declare':
+        ctx.declare(c=(-3, 4), q='bool')
+    elif how == 'add_vars':
+        ctx.add_vars(bv.make_symbol_table(dict(c=(-3, 4), q='bool')))
+    else:
+        ctx.declare_constants(c=(-3, 4))
+        ctx.declare_variables(q='bool')
+    v = ctx.add_expr(rf'(({C} = -2) \/ {Q}) /\ ({X} < 3)')
+    f = lambda c, q, x: (c == -2 or q) and x < 3
+    doms = {C: bc.var_values(ctx.vars[C]), Q: [False, True],
+            X: bc.var_values(ctx.vars[X])}
+    models = {(c, q, x) for c in doms[C] for q in doms[Q] for x in doms[X]
+              if f(c, q, x)}
+    out['support'] = sorted(ctx.support(v))
+    out['count'] = ctx.count(v)
+    picks = list(ctx.pick_iter(v))
+    out['pick_keys_ok'] = all(set(d) == {C, Q, X} for d in picks)
+    out['pick_models_ok'] = out['pick_keys_ok'] and \
+        sorted((d[C], d[Q], d[X]) for d in picks) == sorted(models)
+    out['exist_support'] = sorted(ctx.support(ctx.exist({X}, v)))
+    out['let_support'] = sorted(ctx.support(ctx.let({C: -2}, v)))
+    out['care_count'] = ctx.count(v, care_vars=[C, Q, X, P])
+    exp = dict(early_support=sorted([X, P]), early_count=3,
+               support=sorted([C, Q, X]), count=len(models),
+               pick_keys_ok=True, pick_models_ok=True,
+               exist_support=sorted([C, Q]), let_support=[X],
+               care_count=2 * len(models))
+    if out == exp:
+        return None
+    return dict(got={k: out[k] for k in out if out[k] != exp[k]},
+                expected={k: exp[k] for k in out if out[k] != exp[k]})
+
+
 def correspond(ctx):
     mism = []
+    for backend in ('autoref', 'cudd'):
+        for how in ('declare', 'add_vars', 'automaton'):
+            try:
+                r = late_declaration_probe(backend, how)
+            except Exception as e:
+                r = dict(raised=repr(e))
+            if r is not None:
+                mism.append(Mismatch(
+                    'queries after a late declaration (identifiers declared '
+                    'after earlier queries) are not those of the set of '
+                    'assignments',
+                    dict(kind='late_declaration', backend=backend, how=how),
+                    impl=r, property_fails=True))
     for backend in ('autoref', 'cudd'):
         for order in ('bool_first', 'int_first'):
             r = collision_probe(backend, order)
@@ -981,6 +1054,20 @@ def check_case(case, rng=None):
             % (r['support_of_b_0'], r['b_eq_1_implies_b_0']),
             case, expected='independent variables, or the second declaration '
             'rejected', got=r, key='bitname-collision',
+            replay_cmd='./check C07 --replay <this file>')
+    if case.get('kind') == 'late_declaration':
+        try:
+            r = late_declaration_probe(case['backend'], case['how'])
+        except Exception as e:
+            r = dict(raised=repr(e))
+        if r is None:
+            return None
+        return Failing(
+            'after declare x, p; support/count/pick_iter/exist; then a late '
+            'declaration of c, q (%s), the queries on ((c = -2) \\/ q) /\\ '
+            '(x < 3) differ from explicit enumeration: %s'
+            % (case['how'], r), case, expected=r.get('expected'),
+            got=r.get('got', r),
             replay_cmd='./check C07 --replay <this file>')
     if case.get('kind') == 'enumerate':
         import omega.symbolic.enumeration as enum
